@@ -7,6 +7,7 @@ import (
 	"fmt"
 	"net"
 	"net/netip"
+	"slices"
 	"sort"
 	"strings"
 	"testing"
@@ -26,9 +27,13 @@ var c04IPs = []string{
 	"2001:db8::1", "2001:db8:1::5", "::ffff:10.1.2.3",
 }
 
+// link-local addresses with IPv6 zones: the exact map is keyed with the zone,
+// the prefix test strips it.
+var c04ZoneIPs = []string{"fe80::1%eth0", "fe80::1%eth1", "fe80::1", "fe80::2%eth0"}
+
 var c04Subnets = []string{
 	"10.0.0.0/8", "10.1.0.0/16", "10.1.2.0/24", "10.2.0.0/8", "10.1.2.3/32", "10.1.0.0/17",
-	"2001:db8::/32", "2001:db8:1::/48", "0.0.0.0/0", "::/0",
+	"2001:db8::/32", "2001:db8:1::/48", "0.0.0.0/0", "::/0", "fe80::/64",
 }
 
 var c04MACs = []string{
@@ -63,13 +68,13 @@ func (d *c04DHCP) MACByIP(ip netip.Addr) net.HardwareAddr {
 
 func c04Addr(a netip.Addr) string {
 	if !a.IsValid() {
-		return vfBytes("")
+		return vfPair(vfBytes(""), vfBytes(""))
 	}
-	return vfBytes(string(a.AsSlice()))
+	return vfPair(vfBytes(string(a.AsSlice())), vfBytes(a.Zone()))
 }
 
 func c04Prefix(p netip.Prefix) string {
-	return vfPair(c04Addr(p.Addr()), vfN(uint64(p.Bits())))
+	return vfPair(vfBytes(string(p.Addr().AsSlice())), vfN(uint64(p.Bits())))
 }
 
 type c04UIDs struct{ m map[UID]uint64 }
@@ -114,7 +119,7 @@ func c04Client(u *c04UIDs, p *Persistent) string {
 	for i, m := range p.MACs {
 		macs[i] = vfBytes(string(m))
 	}
-	return vfApp("mkc", vfN(u.num(p.UID)), vfBytes(p.Name), vfList("bytes", cids), vfList("bytes", ips),
+	return vfApp("mkc", vfN(u.num(p.UID)), vfBytes(p.Name), vfList("bytes", cids), vfList("bytes * bytes", ips),
 		vfList("bytes * N", nets), vfList("bytes", macs),
 		vfBool(p.UseOwnSettings), vfBool(p.FilteringEnabled), vfBool(p.SafeSearchConf.Enabled),
 		vfBool(p.SafeBrowsingEnabled), vfBool(p.ParentalEnabled), vfBool(p.UseOwnBlockedServices),
@@ -200,6 +205,9 @@ func (r *c04Ref) resolve(cid string, a netip.Addr, dhcp *c04DHCP, spell net.Hard
 	}
 	if a.IsValid() {
 		if p = r.owner("ip:" + a.String()); p != nil {
+			if a.Zone() != "" {
+				return p, "zone-exact"
+			}
 			return p, "ip"
 		}
 	}
@@ -207,7 +215,7 @@ func (r *c04Ref) resolve(cid string, a netip.Addr, dhcp *c04DHCP, spell net.Hard
 	n := 0
 	for _, c := range r.byName {
 		for _, s := range c.Subnets {
-			if !a.IsValid() || !s.Contains(a) {
+			if !a.IsValid() || !s.Contains(a.WithZone("")) {
 				continue
 			}
 			n++
@@ -217,6 +225,9 @@ func (r *c04Ref) resolve(cid string, a netip.Addr, dhcp *c04DHCP, spell net.Hard
 		}
 	}
 	if p != nil {
+		if a.Zone() != "" {
+			return p, "zone-cidr"
+		}
 		if n > 1 {
 			return p, "cidr-overlap"
 		}
@@ -289,6 +300,16 @@ func c04NewHist(t *testing.T, r *vfRand, ids []string) *c04Hist {
 			spell = append(spell, e)
 		}
 	}
+	for _, id := range ids {
+		if id == "fe80::/64" || strings.Contains(id, "%") {
+			for _, z := range c04ZoneIPs {
+				if !slices.Contains(spell, z) {
+					spell = append(spell, z)
+				}
+			}
+			break
+		}
+	}
 	for _, sp := range spell {
 		if strings.Contains(sp, "/") {
 			continue
@@ -337,10 +358,20 @@ func (h *c04Hist) fail(key, msg string) {
 
 // observe runs all probes on the real storage and renders the observation
 // (without the error class) as Gallina.
+func (h *c04Hist) safeFind(raw string) (p *Persistent, ok bool) {
+	defer func() {
+		if rec := recover(); rec != nil {
+			h.fail("find-panic", fmt.Sprintf("Find(%q) panicked: %v", raw, rec))
+			p, ok = nil, false
+		}
+	}()
+	return h.s.Find(raw)
+}
+
 func (h *c04Hist) observe() string {
 	finds := make([]string, len(h.probes))
 	for i, pr := range h.probes {
-		p, ok := h.s.Find(pr.raw)
+		p, ok := h.safeFind(pr.raw)
 		if ok && p != nil {
 			finds[i] = vfOpt("N", true, vfN(h.uids.num(p.UID)))
 		} else {
@@ -493,7 +524,7 @@ func (h *c04Hist) monitor(opDesc string, errClass int) {
 			spell = pr.mac
 		}
 		wantP, how := h.ref.resolve("", pr.ip, h.dhcp, spell)
-		got, ok := h.s.Find(pr.raw)
+		got, ok := h.safeFind(pr.raw)
 		gn, wn := "", ""
 		if ok {
 			gn = got.Name
@@ -619,7 +650,7 @@ func (h *c04Hist) setDHCP(tbl map[netip.Addr]net.HardwareAddr) {
 		d = append(d, a.String()+"="+tbl[a].String())
 	}
 	h.prev = h.observe()
-	h.record(vfApp("HDhcp", vfList("bytes * bytes", items)), "dhcp "+strings.Join(d, " "), 0)
+	h.record(vfApp("HDhcp", vfList("(bytes * bytes) * bytes", items)), "dhcp "+strings.Join(d, " "), 0)
 }
 
 // mk builds a client the way home does (SetIDs on strings).
@@ -644,7 +675,7 @@ func c04Mk(name string, ids []string, r *vfRand) *Persistent {
 func (h *c04Hist) emit(out *vfOut, tag string) {
 	finds := make([]string, len(h.probes))
 	for i, pr := range h.probes {
-		finds[i] = "(" + vfBytes(pr.raw) + ", " + vfOpt("bytes", pr.ipOK, c04Addr(pr.ip)) + ", " +
+		finds[i] = "(" + vfBytes(pr.raw) + ", " + vfOpt("bytes * bytes", pr.ipOK, c04Addr(pr.ip)) + ", " +
 			vfOpt("bytes", pr.macOK, vfBytes(string(pr.mac))) + ")"
 	}
 	names := make([]string, len(c04Names))
@@ -655,8 +686,8 @@ func (h *c04Hist) emit(out *vfOut, tag string) {
 	for i, q := range h.pairs {
 		pairs[i] = vfPair(vfBytes(q.cid), c04Addr(q.a))
 	}
-	coq := vfApp("CHist", vfList("bytes * option bytes * option bytes", finds), vfList("bytes", names),
-		vfList("bytes * bytes", pairs), c04Settings(&h.glob), vfList("hstep * obs", h.steps))
+	coq := vfApp("CHist", vfList("bytes * option (bytes * bytes) * option bytes", finds), vfList("bytes", names),
+		vfList("bytes * (bytes * bytes)", pairs), c04Settings(&h.glob), vfList("hstep * obs", h.steps))
 	var classes []string
 	for c := range h.cls {
 		classes = append(classes, c)
@@ -784,8 +815,15 @@ func c04Universe(r *vfRand) (ids []string) {
 		}
 		ids = append(ids, ys[:n]...)
 	}
-	pick(c04IPs, 2+r.Intn(2))
-	pick(c04Subnets, 3+r.Intn(2))
+	if r.Chance(1, 4) {
+		pick(c04ZoneIPs, 2+r.Intn(3))
+		pick(c04IPs, 1)
+		ids = append(ids, "fe80::/64")
+		pick(c04Subnets[:len(c04Subnets)-1], 2)
+	} else {
+		pick(c04IPs, 2+r.Intn(2))
+		pick(c04Subnets, 3+r.Intn(2))
+	}
 	pick(c04MACs, 2+r.Intn(2))
 	pick(c04CIDs, 1+r.Intn(2))
 	return ids
@@ -794,7 +832,7 @@ func c04Universe(r *vfRand) (ids []string) {
 // ---- prelude: one constructed history per branch class
 
 func c04Prelude(t *testing.T, out *vfOut) {
-	all := append(append(append(append([]string{}, c04IPs...), c04Subnets...), c04MACs...), c04CIDs...)
+	all := append(append(append(append(append([]string{}, c04IPs...), c04ZoneIPs...), c04Subnets...), c04MACs...), c04CIDs...)
 	r := vfNewRand(4)
 	mac := func(s string) net.HardwareAddr { m, _ := net.ParseMAC(s); return m }
 
@@ -875,6 +913,28 @@ func c04Prelude(t *testing.T, out *vfOut) {
 		netip.MustParseAddr("10.1.2.4"): mac("00:00:00:00:fe:80:00:00:00:00:00:00:02:00:5e:10:00:00:00:01")})
 	h.update("a", c04Mk("a", []string{"aa:bb:cc:dd:ee:01"}, nil))
 	h.emit(out, "prelude-macs")
+
+	// IPv6 zones: exact identifier with a zone; requests from the same zoned
+	// address, the zone-less one, another zone; with and without a containing /64
+	h = c04NewHist(t, r.Fork(4), all)
+	h.pairs = []c04Pair{
+		{"", netip.MustParseAddr("fe80::1%eth0")}, {"", netip.MustParseAddr("fe80::1")},
+		{"", netip.MustParseAddr("fe80::1%eth1")}, {"", netip.MustParseAddr("fe80::2%eth0")},
+		{"cli1", netip.MustParseAddr("fe80::1%eth0")}, {"", netip.MustParseAddr("2001:db8::1")},
+	}
+	h.prev = h.observe()
+	h.add(c04Mk("a", []string{"fe80::1%eth0"}, nil))
+	h.add(c04Mk("b", []string{"fe80::1%eth0"}, nil)) // same zoned address: clash
+	h.add(c04Mk("b", []string{"fe80::1%eth1"}, nil)) // other zone: a different identifier
+	h.add(c04Mk("c", []string{"fe80::/64", "cli1"}, nil))
+	h.setDHCP(map[netip.Addr]net.HardwareAddr{netip.MustParseAddr("fe80::2%eth0"): mac("aa:bb:cc:dd:ee:01")})
+	h.add(c04Mk("d", []string{"fe80::1", "aa:bb:cc:dd:ee:01"}, nil))
+	h.remove("c")
+	h.update("a", c04Mk("a", []string{"fe80::2%eth0"}, nil))
+	h.update("b", c04Mk("b", []string{"fe80::1%eth1", "fe80::1%eth0"}, nil))
+	h.remove("d")
+	h.add(c04Mk("c", []string{"::/0"}, nil))
+	h.emit(out, "prelude-zones")
 }
 
 func TestVerifC04(t *testing.T) {
